@@ -283,6 +283,8 @@ def s_unit_inj(cb):
     for cb2 in CB:
         if cb2 != cb and cb2 not in ('planSucceeded', 'planFailed'):
             contracts['C__%s' % cb2] = dict(stub_contract(cb2, ST), optional=True)
+            for d in range(3):
+                contracts['Inj%d__%s' % (d + 1, cb2)] = dict(inj_stub(cb2, d, ST), optional=True)
     contracts.update(logger_contracts())
     if cb == 'exit':
         contracts.update(CLEAR_STATUS)
@@ -659,6 +661,10 @@ R_CALLS = {'re:^C___': 'contract'}
 def r_unit(name, fn, contract, callee_contracts, props, nparams, calls=None, cls=r'^ffsm2::detail::R_<', **kw):
     contracts = {fn: contract}
     contracts.update(callee_contracts)
+    # every lifecycle function of the composite has its contract available: an R_ function that calls the wrong one
+    # (deepEnter where deepChangeToRequested is due) is checked against that one's precondition
+    for k, c in (('C___deepEnter', C_ENTER), ('C___deepExit', C_EXIT), ('C___deepChangeToRequested', C_CHANGE)):
+        contracts.setdefault(k, dict(c, optional=True))
     cl = dict(R_CALLS); cl.update(calls or {})
     u = dict(id='root.%s' % name, witness=W, recs=R_RECS, opaque=R_OPAQUE, opaque_keep=R_KEEP, props=props,
              target=dict(cls=cls, name=name.split('.')[0], nparams=nparams), consts=CONSTS, need_consts=['ArgsT.STATE_COUNT', 'R_.SUBSTITUTION_LIMIT'], ghost=GHOST, calls=cl, contracts=contracts)
